@@ -215,21 +215,14 @@ func FromReflect(rv reflect.Value) Val {
 }
 
 func fromJSON(j interface{}) Val {
-	switch x := j.(type) {
+	switch j.(type) {
 	case nil:
 		return Val{K: VNil}
-	case float64:
-		if x == math.Trunc(x) && math.Abs(x) < 1e15 {
-			// the engine reads integral JSON numbers as numbers; kind is not judged, value is
-			return Val{K: VFloat, F: x}
-		}
-		return Val{K: VFloat, F: x}
-	case string:
-		return Val{K: VString, S: x}
-	case bool:
-		return Val{K: VBool, B: x}
+	case map[string]interface{}, []interface{}:
+		return Val{K: VComp, J: j}
 	}
-	return Val{K: VComp, J: j}
+	// scalars: float64/string/bool from the decoder, or whatever Go kind an assignment stored
+	return FromReflect(reflect.ValueOf(j))
 }
 
 // ---------- errors ----------
